@@ -288,6 +288,30 @@ def build_cases(gen, rng, tier):
                 case = {"items": []}
                 it = gen.struct(case, nm(0), kind, n, [], depth=rep % 2, p_adt=0)
                 add("%s-%d" % (kind, n), [it], [A(0)], nvals=2)
+    # more than 5 fields (std's derive switches to debug_*_fields_finish there)
+    for kind in ("tuple", "named"):
+        for n in (5, 6, 7) if tier == "quick" else (5, 6, 7, 8, 9):
+            case = {"items": []}
+            it = gen.struct(case, nm(0), kind, n, [], depth=0, p_adt=0)
+            if kind == "named":
+                for i, f in enumerate(it["fields"]["list"]):
+                    f["name"] = G.ident("f%d" % i)
+            add("%s-%d" % (kind, n), [it], [A(0)])
+    # every value of the edge-case leaf (empty output, leading/trailing/only newline, blank line, CRLF, wide chars)
+    for expr in G.LEAF_TYPES["Edge"][1]:
+        lid = gen.leaves.get("Edge", expr)
+        its = [{"kind": "struct", "name": nm(0), "params": [], "fields": {"kind": "tuple", "list": [
+            {"name": None, "ty": LT("Edge"), "attr": None}, {"name": None, "ty": LT("u8"), "attr": None}]}},
+            {"kind": "struct", "name": nm(1), "params": [], "fields": {"kind": "named", "list": [
+                {"name": G.ident("a"), "ty": A(0), "attr": None}, {"name": G.ident("b"), "ty": LT("Edge"), "attr": None}]}},
+            {"kind": "struct", "name": nm(2), "params": [], "fields": {"kind": "tuple", "list": [
+                {"name": None, "ty": A(1), "attr": None}, {"name": None, "ty": LT("Edge"), "attr": ["skip"]}]}}]
+        case = {"tag": "edge-leaf", "items": its, "values": []}
+        v0 = ["adt", 0, -1, [["leaf", lid], ["leaf", gen.leaves.get("u8", "7u8")]]]
+        v1 = ["adt", 1, -1, [v0, ["leaf", lid]]]
+        v2 = ["adt", 2, -1, [v1, ["leaf", lid]]]
+        case["values"] = [{"ty": A(0), "v": v0}, {"ty": A(2), "v": v2}]
+        cases.append(case)
     # every leaf type once, in a 1-tuple and a 1-named struct
     for key in G.LEAF_TYPES:
         if key == "Fail":
